@@ -87,3 +87,8 @@ def all_dispatched(sc, sysm):
 
 def true(sc, sysm):
   return lambda B, st: B.true()
+
+
+def c04_bad(sc, sysm):
+  fs = [order_bad(sc, sysm), double_dispatch(sc, sysm), any_crash(sc, sysm)]
+  return lambda B, st: B.or_(*[f(B, st) for f in fs])
